@@ -116,7 +116,9 @@ structure J where
   destOK : Bool := false        -- the case scripts a callback that destructs the user: `closed` is expected
   bad : List String := []       -- newest first
 
-def J.fail (j : J) (what : String) : J := { j with bad := what :: j.bad }
+/-- record a violation; the exact-framing comparisons stop after the first one (one verdict per case is enough, and
+    a run-away trace must not make the oracle quadratic) -/
+def J.fail (j : J) (what : String) : J := { j with bad := what :: j.bad, exact := false }
 
 def isPrefix : List (List Byte) → List (List Byte) → Bool
   | [], _ => true
